@@ -39,7 +39,7 @@ def recheck_hangs(cases, obs):
     CASE_TIMEOUT = '25s'
     os.environ['VERIF_POST_TIMEOUT'] = '20s'
     try:
-        for i in idx[:12]:
+        for i in idx[:400]:
             o2 = run_cases([cases[i]])[0]
             o2['rechecked'] = True
             obs[i] = o2
